@@ -195,16 +195,21 @@ def judge(acc: Acc, case: dict) -> str | None:
 			os.chdir(state()['src_dir'])
 		rendered = str(ErrorRender(exc))
 		acc.see('error_render', 'ok' + (' (with source quotation)' if 'via Node:' in rendered else ''))
-		if path == 'disk-same' and 'via Node:' in rendered:
-			# the quoted line is the line of the file as it stands now (the renderer reads it in binary, cuts at LF, shows tabs as blanks)
+		if path in ('disk', 'disk-overwrite', 'disk-same') and 'via Node:' in rendered:
+			# the quoted line is the line of the named file as it stands now (the renderer reads it in binary, cuts at LF, shows tabs as blanks)
 			m = re.search(r'via Node:\n  (.*):(\d+)\n    >>> ([^\n]*)', rendered)
-			if m and m.group(1).endswith('vf07_same.py'):
-				lines = (text + '\n').encode('utf-8').split(b'\n')
+			quoted_file = os.path.join(state()['src_dir'], m.group(1)) if m else ''
+			if m and int(m.group(2)) < 1:
+				# a node without a position is reported as line 0 (the renderer then shows the last line): not a line of the file, nothing to compare here
+				acc.see('error_render', 'quotation names line 0 (position-less node)')
+			elif m and os.path.basename(quoted_file).startswith('vf07_') and os.path.isfile(quoted_file):
+				with open(quoted_file, 'rb') as f:
+					lines = f.read().split(b'\n')
 				no = int(m.group(2)) - 1
-				current = lines[no].decode('utf-8').replace('\t', ' ') if no < len(lines) else None
-				acc.see('error_render', 'quotation of a re-edited file compared')
+				current = lines[no].decode('utf-8', errors='replace').replace('\t', ' ') if no < len(lines) else None
+				acc.see('error_render', 'quotation of a re-edited file compared' if path == 'disk-same' else 'quotation of a module file compared')
 				if current != m.group(3):
-					acc.violation('error-render-stale-quotation', f'report for the re-edited file {m.group(1)}:{m.group(2)} quotes {m.group(3)!r}, the file holds {current!r} there', case)
+					acc.violation('error-render-stale-quotation', f'{path}: report for the file {m.group(1)}:{m.group(2)} quotes {m.group(3)!r}, the file holds {current!r} there', case)
 		if name not in rendered:
 			acc.violation('error-render-incomplete', f'rendering of {name} does not name the error class: {rendered[-300:]!r}', case)
 	except BaseException as e2:  # noqa
